@@ -21,6 +21,8 @@
 EXTENDS ClosureDefs
 
 CONSTANTS DiamPairs,   \* set of <<dA, dB>> in half units (sums even)
+          PotSigmas,   \* how the potentials get their contact distance: "default" (from the diameters), or an
+                       \* explicit sigma "smaller" / "larger" than the mean of the diameters
           KTs,         \* thermal energies
           Stride       \* every Stride-th configuration is exported for replay (all are checked by TLC)
 
@@ -32,16 +34,29 @@ PairCfg == [clos : XClos, flag : BOOLEAN, pot : XPots]
 Valid(p) == ~(p.clos \in {"MSA", "MS"} /\ ~p.flag /\ p.pot \in CoreKinds)
 HasCore(p) == HardCorePair(p.clos, p.flag, p.pot)
 
-VARIABLES xcfg,    \* [pairs : [Pairs -> PairCfg], dia : <<dA, dB>>, kT : {1, 2}]
+VARIABLES xcfg,    \* [pairs : [Pairs -> PairCfg], dia : <<dA, dB>>, kT, psig]
           last
 xvars == <<xcfg, last>>
 
-Sigma2(c, pr) == CASE pr = "AA" -> c.dia[1]
-                   [] pr = "BB" -> c.dia[2]
-                   [] pr = "AB" -> (c.dia[1] + c.dia[2]) \div 2
+\* contact distance the CLOSURE of a pair works with: always the mean of the two diameters
+DiamSigma2(c, pr) == CASE pr = "AA" -> c.dia[1]
+                       [] pr = "BB" -> c.dia[2]
+                       [] pr = "AB" -> (c.dia[1] + c.dia[2]) \div 2
+\* contact distance of the pair's POTENTIAL: an explicitly given sigma wins over the diameters
+PotSigma2(c, pr) == CASE c.psig = "default" -> DiamSigma2(c, pr)
+                      [] c.psig = "smaller" -> DiamSigma2(c, pr) - 3
+                      [] c.psig = "larger"  -> DiamSigma2(c, pr) + 4
+Max2(a, b) == IF a < b THEN b ELSE a
+\* extent of the core of a hard-core pair: the flag excludes r <= mean diameter whatever the potential says; an
+\* overlap value under PY / HNC excludes r <= sigma of the potential
+Sigma2(c, pr) ==
+    LET p == c.pairs[pr]
+        byPot == p.pot \in CoreKinds /\ p.clos \in {"PY", "HNC"}
+    IN  IF p.flag THEN (IF byPot THEN Max2(DiamSigma2(c, pr), PotSigma2(c, pr)) ELSE DiamSigma2(c, pr))
+        ELSE PotSigma2(c, pr)
 NCore(c, pr) == Cardinality({i \in Pts : InCore(i, Sigma2(c, pr))})
 
-XInit == /\ xcfg \in [pairs : [Pairs -> {p \in PairCfg : Valid(p)}], dia : DiamPairs, kT : KTs]
+XInit == /\ xcfg \in [pairs : [Pairs -> {p \in PairCfg : Valid(p)}], dia : DiamPairs, kT : KTs, psig : PotSigmas]
          /\ ~(\A pr \in Pairs : ~HasCore(xcfg.pairs[pr]))
          /\ last = [act |-> "Init"]
 
@@ -50,6 +65,7 @@ Cost(gf) == /\ UNCHANGED xcfg
             /\ last' = [act |-> "Cost", gamma |-> gf,
                         hard  |-> [pr \in Pairs |-> HasCore(xcfg.pairs[pr])],
                         sigma2 |-> [pr \in Pairs |-> Sigma2(xcfg, pr)],
+                        potsigma2 |-> [pr \in Pairs |-> IF xcfg.psig = "default" THEN 0 ELSE PotSigma2(xcfg, pr)],
                         ncore |-> [pr \in Pairs |-> NCore(xcfg, pr)]]
 XNext == \E gf \in {"zero", "small", "large"} : Cost(gf)
 
@@ -73,5 +89,6 @@ Code(p) == (CASE p.clos = "PY" -> 0 [] p.clos = "HNC" -> 1 [] p.clos = "MSA" -> 
            + (IF p.flag THEN 4 ELSE 0)
            + (CASE p.pot = "HardSphere" -> 0 [] p.pot = "Exponential" -> 1 [] p.pot = "HardCoreLennardJones" -> 2 [] p.pot = "LennardJones" -> 3)
 Hash(c) == Code(c.pairs["AA"]) * 1024 + Code(c.pairs["AB"]) * 32 + Code(c.pairs["BB"]) + c.dia[1] * 7 + c.dia[2] * 13 + c.kT * 5
+           + (CASE c.psig = "default" -> 0 [] c.psig = "smaller" -> 3 [] c.psig = "larger" -> 11)
 Sampled == Hash(xcfg) % Stride = 0
 =============================================================================
